@@ -291,6 +291,23 @@ def run_indexed(idx, tape):
                 violate("C28.not-idempotent", f"crash_at={crash_at}: second migration run raised {type(e).__name__}: {e}", crash=crash_at is not None, start=kind)
             if start_schema is None or start_schema.get("objects") != ref["objects"]:
                 nts.add(f"{case}:crash={crash_at}")
+            if crash_at is None:
+                # the same path is taken over by the starting state again (file deleted / an older backup restored over it) while this
+                # process lives: it is a starting state like any other
+                for ext in ("", "-wal", "-shm", "-journal"):
+                    if os.path.exists(path + ext):
+                        os.remove(path + ext)
+                path = _build_start(td, kind, k, mode)
+                probes["same-path-restored-and-migrated-again"] = probes.get("same-path-restored-and-migrated-again", 0) + 1
+                try:
+                    _migrate(path, sources, mode)
+                    s3 = _schema(path, mode)
+                    evals += 1
+                    if s3["objects"] != ref["objects"] or sorted(set(s3["versions"] or [])) != sorted(set(ref["versions"] or [])):
+                        violate("C28.schema-diff", f"the starting state restored over an already migrated path and migrated again in the same process: schema/bookkeeping differ from a "
+                                f"fresh migration (rows {s3['versions']}, expected {ref['versions']})", crash=False, start=kind, restored=True)
+                except Exception as e:  # noqa: BLE001
+                    violate("C28.migration-raises", f"migrating a restored starting state on an already used path raised {type(e).__name__}: {e}", crash=False, restored=True)
             return n_stmts
         finally:
             td.close()
